@@ -1372,7 +1372,13 @@ class DocutilsRenderer(RendererProtocol):
             field_list = self.dict_to_fm_field_list(
                 fields, language_code=self.document.settings.language_code
             )
+            # warnings raised while rendering a bibliographic field follow the list:
+            # docutils and sphinx read these fields (authors, metadata) as text
+            messages = list(findall(field_list)(nodes.system_message))
+            for message in messages:
+                message.parent.remove(message)
             self.current_node.append(field_list)
+            self.current_node.extend(messages)
 
         if data.get("title") and self.md_config.title_to_header:
             self.nested_render_text(f"# {data['title']}", 0)
